@@ -36,10 +36,13 @@ Definition qinf_close (m obs : qinf) : bool :=
   end.
 
 (* the crowding_dist attribute of every individual after `for front in fronts: assignCrowdingDist(front)` *)
-Definition cd_table {T} (n : nat) (fu : list (list nat)) (cds : list (list T)) : list (option T) :=
+(* `init` = the attribute of every individual before the call (stale values from earlier calls on the
+   same objects; [] = nobody has one): individuals outside the returned fronts keep it *)
+Definition cd_table {T} (n : nat) (init : list (option T)) (fu : list (list nat)) (cds : list (list T))
+  : list (option T) :=
   fold_left (fun tab fc => fold_left (fun tab ud => set_nth tab (fst ud) (Some (snd ud)))
                                      (combine (fst fc) (snd fc)) tab)
-            (combine fu cds) (repeat None n).
+            (combine fu cds) (match init with [] => repeat None n | _ => init end).
 
 (* nd='standard': the transcription of sortNondominated must return exactly the fronts (members and
    order) that the implementation's sortNondominated returned during the call *)
@@ -57,7 +60,7 @@ Section Runner.
   Variable dok : D o -> bool.
 
   Definition run_sel (k : nat) (pop : list (list Z * list (V o))) (fu : list (list nat))
-             (obs_sel : list nat) (obs_cd : list (option (D o))) (cmp_sel std : bool) : bool :=
+             (obs_sel : list nat) (init_cd obs_cd : list (option (D o))) (cmp_sel std : bool) : bool :=
     let p := mkpop pop in
     let fronts := map (select p) fu in
     wf_pop_b p && fronts_correct_b p k fu && std_ok std p k fu &&
@@ -65,7 +68,7 @@ Section Runner.
     | None => false
     | Some r => negb cmp_sel || list_eqb Nat.eqb (map uid r) obs_sel
     end &&
-    list_eqb (option_eqb deq) (cd_table (length p) fu (crowding_all o fronts)) obs_cd &&
+    list_eqb (option_eqb deq) (cd_table (length p) init_cd fu (crowding_all o fronts)) obs_cd &&
     forallb (forallb dok) (crowding_all o fronts).
 
   Definition run_crowd (vals : list (list (V o))) (obs : list (D o)) : bool :=
@@ -74,17 +77,17 @@ End Runner.
 
 Inductive case :=
 | CSelF (std : bool) (k : nat) (pop : list (list Z * list float)) (fu : list (list nat))
-        (obs_sel : list nat) (obs_cd : list (option float))
+        (obs_sel : list nat) (init_cd obs_cd : list (option float))
 | CSelQ (exact : bool) (k : nat) (pop : list (list Z * list Q)) (fu : list (list nat))
-        (obs_sel : list nat) (obs_cd : list (option qinf))
+        (obs_sel : list nat) (init_cd obs_cd : list (option qinf))
 | CCrowdF (vals : list (list float)) (obs : list float)
 | CCrowdQ (exact : bool) (vals : list (list Q)) (obs : list qinf).
 
 Definition check (c : case) : bool :=
   match c with
-  | CSelF std k pop fu s cd => run_sel f_ops feqb (fun d => negb (PrimFloat.is_nan d)) k pop fu s cd true std
-  | CSelQ exact k pop fu s cd =>
-      run_sel q_ops (if exact then qinf_eqb else qinf_close) (fun _ => true) k pop fu s cd exact false
+  | CSelF std k pop fu s ic cd => run_sel f_ops feqb (fun d => negb (PrimFloat.is_nan d)) k pop fu s ic cd true std
+  | CSelQ exact k pop fu s ic cd =>
+      run_sel q_ops (if exact then qinf_eqb else qinf_close) (fun _ => true) k pop fu s ic cd exact false
   | CCrowdF vals obs => run_crowd f_ops feqb vals obs
   | CCrowdQ exact vals obs => run_crowd q_ops (if exact then qinf_eqb else qinf_close) vals obs
   end.
